@@ -1095,18 +1095,50 @@ def purity(seed, n):
                 n_ = np.asarray(e.information).shape[0]
                 if n_ < 2 or rng.random() < 0.4:
                     continue
-                if rng.random() < 0.5:
+                c_ = rng.random()
+                if c_ < 0.4:
                     A_ = np.array([[rng.gauss(0, 1) for _ in range(n_)] for _ in range(n_)])
                     e.information = np.linalg.inv(A_ @ A_.T + 0.3 * np.eye(n_))
-                else:
+                elif c_ < 0.7:
                     e.information = np.triu(np.asarray(e.information, dtype=np.float64))
+                else:
+                    # a diagonal matrix whose zeros are negative zeros (the result of -1 * 0.0, of rounding a tiny negative covariance): the same numbers
+                    D_ = np.diag([rng.uniform(0.5, 5.0) for _ in range(n_)])
+                    D_[D_ == 0.0] = -0.0
+                    e.information = D_
+        seam_edge = None
+        if kind == 'SE2' and rng.random() < 0.4:
+            # one odometry edge whose angular error sits within 1e-6 of the +-pi seam (either side): a forward step of the numerical
+            # differentiation crosses it.  Whatever the library does there, asking twice gives the same answer and nothing is stored
+            odo_ = [e for e in es if isinstance(e, EdgeOdometry) and isinstance(e.estimate, PoseSE2)]
+            if odo_:
+                e = rng.choice(odo_)
+                byid_ = {v.id: v for v in vs}
+                t1_, t2_ = float(byid_[e.vertex_ids[0]].pose[2]), float(byid_[e.vertex_ids[1]].pose[2])
+                e.estimate = PoseSE2(np.asarray(e.estimate)[:2], (t2_ - t1_) + rng.choice([-1, 1]) * (math.pi - rng.uniform(2e-7, 8e-7)))
+                seam_edge = e
         for e in es:
             e.vertices = None
         g = Graph(es, vs)
         g._vertices[0].fixed = True
         snap0 = snapshot(g)
         last = {}
-        qs = ['chi2', 'edge_err', 'edge_chi2', 'edge_jac', 'edge_cgh', 'edge_cgh', 'graph_cgh', 'graph_cgh', 'equals', 'to_g2o', 'pose_ops', 'copy']
+        if seam_edge is not None:
+            try:
+                evals += 1
+                j1_ = [np.asarray(J).tobytes() for J in BaseEdge.calc_jacobians(seam_edge)]
+                j2_ = [np.asarray(J).tobytes() for J in BaseEdge.calc_jacobians(seam_edge)]
+                if j1_ != j2_ or snapshot(g) != snap0:
+                    fails.append({'law': 'the numerical Jacobians of an SE(2) odometry edge whose angular error is within 1e-6 of the +-pi seam: asked twice at the '
+                                         'same state, %s' % ('the answers differ bitwise' if j1_ != j2_ else 'the numeric state of the graph changed'),
+                                  'seed': seed, 'case': i, 'kind': kind, 'edge': 'graph',
+                                  'estimate': [float(x) for x in np.asarray(seam_edge.estimate)],
+                                  'poses': [[float(x) for x in np.asarray(v.pose)] for v in seam_edge.vertices]})
+                    continue
+            except Exception as ex:  # noqa
+                fails.append({'law': 'numerical Jacobians at the seam raised %r' % (ex,), 'seed': seed, 'case': i, 'edge': 'graph'})
+                continue
+        qs = ['chi2', 'edge_err', 'edge_chi2', 'edge_jac', 'edge_numjac', 'edge_numjac', 'edge_cgh', 'edge_cgh', 'graph_cgh', 'graph_cgh', 'equals', 'to_g2o', 'pose_ops', 'copy']
         ok = True
         for step in range(rng.randint(5, 50)):
             q = rng.choice(qs)
@@ -1187,6 +1219,9 @@ def purity(seed, n):
                         val = float(e.calc_chi2())
                     elif q == 'edge_jac':
                         val = [np.asarray(J).tobytes() for J in e.calc_jacobians()]
+                    elif q == 'edge_numjac':
+                        # the numerical Jacobians every edge type inherits (what an error-only user edge gets), asked of any edge
+                        val = [np.asarray(J).tobytes() for J in BaseEdge.calc_jacobians(e)]
                     else:
                         c, gr, he = e.calc_chi2_gradient_hessian()
                         val = [float(c)] + [np.asarray(x[1]).tobytes() for x in gr] + [np.asarray(x[1]).tobytes() for x in he]
